@@ -337,6 +337,20 @@ def op_body(npts, forced, iota, which, start):
         pgv = np.empty([f.getLayout('v_parallel').shape[0], npts[2], npts[1]])
         o['vpar'].gridStep(f, phi, o['pg'], pgv, o['half'])
         o['vpar'].gridStepKeepGradient(f, pgv, o['half'])
+    elif which == 'vpar_shear':
+        # a rotational transform that depends on the radius (magnetic shear): the parallel gradient must follow the field line of
+        # each slice's own radius on every process (finding F18: a table for all radii was read with the local radial index)
+        from pygyro.advection.advection import ParallelGradient
+        c = o['constants']
+        c.R0 = 4.0                                      # a tight torus: the twist per cell is not negligible
+        val = float(c.iotaVal)
+        c.iota = lambda r=c.rp: val * (1.0 + 0.4 * np.asarray(r, dtype=float))
+        f.setLayout('v_parallel')
+        phi.setLayout('v_parallel_1d')
+        fill_phi(phi, npts, 'v_parallel_1d', 7)
+        pg = ParallelGradient(f.getSpline(1), f.eta_grid, phi.getLayout('v_parallel_1d'), c)
+        pgv = np.empty([f.getLayout('v_parallel').shape[0], npts[2], npts[1]])
+        o['vpar'].gridStep(f, phi, pg, pgv, o['half'])
     elif which == 'vpar_seq':
         # the Strang sequence twice on the same objects, the second potential being exactly zero on part of the radial domain (a
         # whole block of some process, not of all): a decision taken from the local block would differ between decompositions
@@ -439,7 +453,7 @@ def part_operators(chk, stats):
     grids = chk.n([(2, 1), (1, 2), (2, 2), (3, 2)], [(2, 1), (1, 2), (2, 2), (3, 2), (3, 1), (1, 3), (2, 3), (2, 4), (6, 1), (3, 3)])
     for which, start, iotas in (('init', 'flux_surface', [0.8]), ('init', 'poloidal', [0.8]), ('init', 'v_parallel', [0.8]),
                                 ('init_prof', 'flux_surface', [0.8]), ('init_prof', 'poloidal', [0.8]), ('init_prof', 'v_parallel', [0.8]),
-                                ('flux', 'flux_surface', [0.0, 0.8]), ('flux_tuned', 'flux_surface', [0.8]), ('flux_partly_aligned', 'flux_surface', [0.8]), ('vpar', 'v_parallel', [0.8]), ('vpar_seq', 'v_parallel', [0.8]), ('pol', 'poloidal', [0.8]), ('pol_seq', 'poloidal', [0.8]), ('pol_two', 'poloidal', [0.8]), ('qn', 'v_parallel', [0.8])):
+                                ('flux', 'flux_surface', [0.0, 0.8]), ('flux_tuned', 'flux_surface', [0.8]), ('flux_partly_aligned', 'flux_surface', [0.8]), ('vpar', 'v_parallel', [0.8]), ('vpar_shear', 'v_parallel', [0.8]), ('vpar_seq', 'v_parallel', [0.8]), ('pol', 'poloidal', [0.8]), ('pol_seq', 'poloidal', [0.8]), ('pol_two', 'poloidal', [0.8]), ('qn', 'v_parallel', [0.8])):
         for iota in iotas:
             ref = lu.run_ranks(1, op_body, npts, (1, 1), iota, which, start)
             if not ref.ok:
